@@ -221,6 +221,8 @@ func (f *g2lFn) findMutated(fd *ast.FuncDecl) {
 			}
 		case *ast.IncDecStmt:
 			mark(x.X)
+		case *ast.ExprStmt:
+			f.markExprStmt(x) // go2lean_buffer.go
 		case *ast.RangeStmt:
 			if x.Tok == token.ASSIGN {
 				if x.Key != nil {
@@ -540,7 +542,7 @@ func (f *g2lFn) forStmt(x *ast.ForStmt, ind int) []string {
 	if x.Init != nil {
 		out = append(out, f.stmt(x.Init, ind)...)
 	}
-	if x.Post != nil && g2lHasBranch(x.Body.List, token.CONTINUE) {
+	if x.Post != nil && g2lHasBranch(x.Body.List, token.CONTINUE) && !f.continueWithPostOK() { // go2lean_buffer.go
 		f.fail("`continue` in a loop with a post statement")
 	}
 	if x.Cond == nil && g2lHasBranch(x.Body.List, token.BREAK) {
@@ -553,6 +555,8 @@ func (f *g2lFn) forStmt(x *ast.ForStmt, ind int) []string {
 		cs = f.src(x.Cond)
 		out = append(out, fmt.Sprintf("%sif ¬ %s then break", g2lInd(ind+1), g2lPar(f.propExpr(x.Cond))))
 	}
+	f.pushPost(x.Post) // go2lean_buffer.go: emitted before each `continue` of this loop
+	defer f.popPost()
 	f.inLoop++
 	sw := f.inSw
 	f.inSw = 0
@@ -710,6 +714,8 @@ func (f *g2lFn) stmt(s ast.Stmt, ind int) []string {
 			}
 		}
 		return out
+	case *ast.ExprStmt:
+		return f.exprStmt(x, ind) // go2lean_buffer.go: buffer writes, copy, sort.SliceStable
 	case *ast.ReturnStmt:
 		return f.ret(x, ind)
 	case *ast.IfStmt:
@@ -734,7 +740,7 @@ func (f *g2lFn) stmt(s ast.Stmt, ind int) []string {
 			if f.inLoop == 0 {
 				f.fail("`continue` outside a loop")
 			}
-			return []string{g2lInd(ind) + "continue"}
+			return append(f.beforeContinue(ind), g2lInd(ind)+"continue") // go2lean_buffer.go
 		}
 	}
 	f.fail("statement `%s` (%T) is outside the subset", g2lOneLine(f.src(s)), s)
@@ -822,9 +828,11 @@ func (g *g2l) translateFunc(key string) (u *g2lUnit) {
 		f.fail("type parameters")
 	}
 	ast.Inspect(fd.Body, func(n ast.Node) bool {
-		switch n.(type) {
+		switch x := n.(type) {
 		case *ast.FuncLit:
-			f.fail("function literal")
+			if !f.allowedFuncLit(fd, x) { // go2lean_buffer.go: the comparator of sort.SliceStable
+				f.fail("function literal")
+			}
 		case *ast.GoStmt, *ast.DeferStmt, *ast.SelectStmt, *ast.SendStmt, *ast.TypeSwitchStmt, *ast.LabeledStmt:
 			f.fail("statement %T", n)
 		}
@@ -838,7 +846,8 @@ func (g *g2l) translateFunc(key string) (u *g2lUnit) {
 	if sig.Variadic() {
 		f.fail("variadic function")
 	}
-	if sig.Results().Len() == 0 {
+	effectOnly := f.effectOnlyOK(sig) // go2lean_buffer.go: no result, but in-out parameters
+	if sig.Results().Len() == 0 && !effectOnly {
 		f.fail("no result (a function without result is only called for its effect)")
 	}
 	if fd.Type.Results != nil {
@@ -879,7 +888,7 @@ func (g *g2l) translateFunc(key string) (u *g2lUnit) {
 		resT = f.lean(sig.Results())
 	}
 	resT = f.inOutResult(resT, sig.Results().Len())
-	if !g2lTerminates(fd.Body.List) {
+	if !g2lTerminates(fd.Body.List) && !effectOnly {
 		f.fail("the body does not end in a return on every path the translator recognises")
 	}
 	head := fmt.Sprintf("def %s %s : %s :=", u.lean, strings.Join(params, " "), resT)
@@ -896,6 +905,9 @@ func (g *g2l) translateFunc(key string) (u *g2lUnit) {
 			lines = append(lines, g2lInd(1)+r)
 		}
 		lines = append(lines, f.block(fd.Body.List, 1)...)
+		if effectOnly {
+			lines = append(lines, f.effectOnlyReturn()) // go2lean_buffer.go
+		}
 		u.text = head + " Id.run do\n" + strings.Join(lines, "\n") + "\n"
 	}
 	if f.loops != len(f.fuel) {
